@@ -3,6 +3,7 @@ CONSTANTS
   MaxLives = 3
   MaxFaults = 1
   MaxCrashes = 2
+  MaxReboots = 1
   InitFiles = {100, 0, 102, 101}
 INVARIANT NoWindow
 VIEW View
